@@ -251,7 +251,7 @@ def train_on_policy(
 
                     # Act in environment
                     next_state, reward, term, trunc, info = env.step(clipped_action)
-                    next_done = np.logical_or(term, trunc).astype(np.int8)
+                    next_done = np.atleast_1d(np.logical_or(term, trunc)).astype(np.int8)
 
                     total_steps += num_envs
                     steps += num_envs
